@@ -30,16 +30,16 @@ class MySQLQuery(Query):
 class MySQLValueWrapper(ValueWrapper):
     def get_value_sql(self, ctx: SqlContext) -> str:
         quote_char = ctx.secondary_quote_char or ""
-        if isinstance(value := self.value, str):
+        value = self.value
+        if isinstance(value, (dict, list)):
+            value = json.dumps(value)
+        if isinstance(value, str):
             value = value.replace(quote_char, quote_char * 2)
             value = value.replace("\\", "\\\\")
             return format_quotes(value, quote_char)
         elif isinstance(value, time):
             value = value.replace(tzinfo=None)
             return format_quotes(value.isoformat(), quote_char)
-        elif isinstance(value, (dict, list)):
-            value = format_quotes(json.dumps(value), quote_char)
-            return value.replace("\\", "\\\\")
         return super().get_value_sql(ctx)
 
 
